@@ -586,11 +586,17 @@ def run_check(chk: Check, tier="quick", seed=0, replay=None):
         except Exception:
             pass
     samples = []
+    def _view(c, o):
+        try:
+            return chk.sample_view(c, o)
+        except Exception:  # e.g. the observation is a crash record
+            return {"case": c, "impl": o}
+
     for c, o in list(zip(cases, obs))[: 3]:
-        samples.append(chk.sample_view(c, o))
+        samples.append(_view(c, o))
     if len(cases) > 6:
         for c, o in list(zip(cases, obs))[-2:]:
-            samples.append(chk.sample_view(c, o))
+            samples.append(_view(c, o))
     ev = {
         "property_id": prop,
         "tier": tier,
